@@ -152,6 +152,67 @@ type rebuildSite struct {
 	copyTo  *ssa.Call
 	src     ssa.Value
 	isMap   bool
+	// dstField: when the rebuilt container is kept in a field of a local struct (whose method is the
+	// callback), that field
+	dstField *types.Var
+}
+
+// resolveCallback: the function behind a callback argument — a function literal, a function, or a method
+// value (the compiler's bound-method wrapper is looked through).
+func resolveCallback(v ssa.Value) *ssa.Function {
+	var fn *ssa.Function
+	switch x := v.(type) {
+	case *ssa.MakeClosure:
+		fn, _ = x.Fn.(*ssa.Function)
+	case *ssa.Function:
+		fn = x
+	}
+	if fn != nil && fn.Synthetic != "" && strings.Contains(fn.Synthetic, "bound") {
+		var target *ssa.Function
+		core.EachCall(fn, func(ci ssa.CallInstruction) {
+			if callee := ci.Common().StaticCallee(); callee != nil {
+				target = callee
+			}
+		})
+		if target != nil {
+			return target
+		}
+	}
+	return fn
+}
+
+// localFieldInit: v is a load of field f of a local struct; returns f and the value the struct was built with.
+func localFieldInit(v ssa.Value) (*types.Var, ssa.Value) {
+	u, ok := v.(*ssa.UnOp)
+	if !ok || u.Op != token.MUL {
+		return nil, nil
+	}
+	fa, ok := u.X.(*ssa.FieldAddr)
+	if !ok {
+		return nil, nil
+	}
+	al, ok := fa.X.(*ssa.Alloc)
+	if !ok {
+		return nil, nil
+	}
+	var init ssa.Value
+	n := 0
+	for _, r := range core.Referrers(al) {
+		fa2, ok := r.(*ssa.FieldAddr)
+		if !ok || fa2.Field != fa.Field {
+			continue
+		}
+		for _, r2 := range core.Referrers(fa2) {
+			if st, ok := r2.(*ssa.Store); ok && st.Addr == ssa.Value(fa2) {
+				init = st.Val
+				n++
+			}
+		}
+	}
+	if n != 1 {
+		return nil, nil
+	}
+	return core.FieldVar(fa), init
 }
 
 func rebuildSites(fns []*ssa.Function) []rebuildSite {
@@ -170,15 +231,25 @@ func rebuildSites(fns []*ssa.Function) []rebuildSite {
 			if tn != "Map" && tn != "Slice" {
 				return
 			}
+			var dstField *types.Var
 			nc, ok := core.Canon(cl.Call.Args[0]).(*ssa.Call)
 			if !ok {
-				return
+				// the rebuilt container lives in a field of a local struct (`rw := rewriter{dst: NewMap()} … rw.dst.CopyTo(m)`)
+				f, init := localFieldInit(cl.Call.Args[0])
+				if f == nil {
+					return
+				}
+				nc, ok = core.Canon(init).(*ssa.Call)
+				if !ok {
+					return
+				}
+				dstField = f
 			}
 			g := core.CalleeObj(nc)
 			if g == nil || g.Pkg() == nil || g.Pkg().Path() != core.PdataPath+"/pcommon" || (g.Name() != "NewMap" && g.Name() != "NewSlice") {
 				return
 			}
-			out = append(out, rebuildSite{fn, nc, cl, cl.Call.Args[1], tn == "Map"})
+			out = append(out, rebuildSite{fn, nc, cl, cl.Call.Args[1], tn == "Map", dstField})
 		})
 	}
 	return out
@@ -206,7 +277,33 @@ func c17_1(c *core.Ctx, p *core.Prog) {
 	for _, s := range sites {
 		key := "rebuild@" + core.FuncName(s.fn)
 		pos := p.Pos(s.copyTo.Pos())
-		isIns := func(i ssa.Instruction) bool { return isInsertInto(i, s.newCall) }
+		isIns := func(i ssa.Instruction) bool {
+			if isInsertInto(i, s.newCall) {
+				return true
+			}
+			// method form: the destination is the field of the callback's receiver
+			if s.dstField == nil {
+				return false
+			}
+			cl, ok := i.(*ssa.Call)
+			if !ok {
+				return false
+			}
+			f := pdataCallee(cl)
+			if f == nil || len(cl.Call.Args) == 0 || (!strings.HasPrefix(f.Name(), "Put") && f.Name() != "AppendEmpty") {
+				return false
+			}
+			return core.DerivesFrom(cl.Call.Args[0], func(v ssa.Value) bool {
+				switch y := v.(type) {
+				case *ssa.Field:
+					st, ok := y.X.Type().Underlying().(*types.Struct)
+					return ok && st.Field(y.Field) == s.dstField
+				case *ssa.FieldAddr:
+					return core.FieldVar(y) == s.dstField
+				}
+				return false
+			})
+		}
 		// iteration form: Range callback (maps) or index loop in the same function (slices)
 		var rangeCall *ssa.Call
 		core.EachInstr(s.fn, func(i ssa.Instruction) {
@@ -218,11 +315,7 @@ func c17_1(c *core.Ctx, p *core.Prog) {
 		})
 		var msgs []string
 		if rangeCall != nil {
-			mc, _ := rangeCall.Call.Args[1].(*ssa.MakeClosure)
-			var clo *ssa.Function
-			if mc != nil {
-				clo, _ = mc.Fn.(*ssa.Function)
-			}
+			clo := resolveCallback(rangeCall.Call.Args[1])
 			if clo == nil {
 				c.Undecided(key, pos, core.FuncName(s.fn), "Range callback is not a function literal")
 				continue
@@ -531,8 +624,8 @@ func c17_4(c *core.Ctx, p *core.Prog) {
 		core.EachInstr(s.fn, func(i ssa.Instruction) {
 			if cl, ok := i.(*ssa.Call); ok {
 				if f := pdataCallee(cl); f != nil && f.Name() == "Range" && len(cl.Call.Args) == 2 && cl.Call.Args[0] == s.src {
-					if mc, ok := cl.Call.Args[1].(*ssa.MakeClosure); ok {
-						host, _ = mc.Fn.(*ssa.Function)
+					if h := resolveCallback(cl.Call.Args[1]); h != nil {
+						host = h
 					}
 				}
 			}
